@@ -20,3 +20,4 @@ CFG = dict(
                 "primitives themselves (kit crypto) are only used as a black box behind the callbacks (their correctness is C03).",
      timeout_quick=600, timeout_thorough=2400)
 CFG["rule"] += ' Added after independently written breaking changes: Vault: knows the canonical algorithm names only (aliases are resolved by Encrypt) and unwraps only under the algorithm it wrapped under.'
+CFG["rule"] += ' Key-encryption keys of 2048, 3072, 4096 and 8192 bits (wrapped file keys of 256 to 1024 bytes; manifest lines well beyond 512 bytes).'
